@@ -62,3 +62,21 @@ func plainInbound(kind string) bool {
 	}
 	return true
 }
+
+// isRaw reports whether kind is a raw ("x") pattern.
+func isRaw(kind string) bool { return strings.HasPrefix(kind, "x") }
+
+// rawHeader returns a well-formed protocol header for an application message
+// sent on a raw socket of this kind (pipe = target pipe id for xrep /
+// xrespondent).
+func rawHeader(kind string, pipe uint32, n uint32) []byte {
+	switch kind {
+	case "xpair1", "xstar":
+		return []byte{0, 0, 0, 0}
+	case "xreq", "xsurveyor":
+		return u32(0x80000000 | n)
+	case "xrep", "xrespondent":
+		return append(u32(pipe), u32(0x80000000|n)...)
+	}
+	return nil
+}
